@@ -1323,6 +1323,8 @@ pub fn run(ctx: &Ctx, prop: &str) -> Report {
         "op:alloc:ok", "op:alloc:err", "op:init:ok", "op:init:err", "op:realloc:ok", "op:realloc:err",
         "op:write:ok", "op:write:err", "op:write-typed:ok", "op:write-typed:err", "op:pack-var:ok",
         "op:pack-var:err", "op:alloc-pack:ok", "op:alloc-pack:err", "history:>=2-successful-mutations",
+        "history:large-slab", "history:>10MiB-slab", "history:thousands-of-entries", "history:300-entries", "override-slice-constant",
+        "same-object:ops", "same-object:refilled-hole", "dirty-tail:realloc:ok", "dirty-tail:realloc:err", "dirty-tail:write:ok",
     ]);
     let mut rng = Rng::new(ctx.seed.wrapping_mul(31).wrapping_add(match prop {
         "C01" => 1,
